@@ -804,7 +804,15 @@ impl<'a> Model<'a> {
                     // this pass: a reader that comes earlier in the evaluation order would
                     // otherwise use the range stored by the previous evaluation (or (1,1) for a
                     // formula that has never been evaluated).
-                    let _ = self.evaluate_cell(CellReferenceIndex { sheet, row, column });
+                    if let circular @ CalcResult::Error {
+                        error: Error::CIRC, ..
+                    } = self.evaluate_cell(CellReferenceIndex { sheet, row, column })
+                    {
+                        // The anchor is being evaluated right now (or is itself on a cycle): its
+                        // spill range is not known, the range stored by a previous evaluation
+                        // must not be used.
+                        return circular;
+                    }
                     let worksheet = match self.workbook.worksheet(sheet) {
                         Ok(s) => s,
                         Err(e) => {
